@@ -53,7 +53,9 @@ def seeded():
         for c, v in m["checks"].items():
             first = (v["output"] or ["?"])[0]
             sig = first.split(":")[0].strip()
-            out.append("* check %s: %s - `%s`" % (c, "CAUGHT" if v["exit"] == "exit=1" else "missed", sig))
+            oos = m.get("out_of_scope", {}).get(c)
+            out.append("* check %s: %s - `%s`%s" % (c, "CAUGHT" if v["exit"] == "exit=1" else "missed", sig,
+                                                   (" (not expected to see it: %s)" % oos) if oos else ""))
         s = sens.get("seeded/" + name)
         if s:
             out.append("* sensitivity self-test: expected %s, observed %s (%s)" % (s["expected"], s["observed"], s["depth"]))
